@@ -491,3 +491,7 @@ mod tests {
         );
     }
 }
+
+#[cfg(feature = "pendulum_project_ntpd_rs_verif")]
+#[path = "/verif/hooks/statime-wire/messages_header.rs"]
+pub mod vh_messages_header;
